@@ -86,9 +86,9 @@ PROPS["C09"] = dict(
                 "moves (lf, bs, print_char, print_value).",
 )
 PROPS["C03"] = dict(
-    units=["term_core", "ansi_cmds", "emu_avatar", "sixel", "dcs_macro", "fonts"],
+    units=["term_core", "ansi_cmds", "emu_avatar", "sixel", "dcs_macro", "macro_rec", "fonts"],
     trusted_base=TERM_TRUST + ["String / &str byte lengths are uninterpreted but consistent (O1 stubs str_len / string_len in unit dcs_macro)"],
-    unverified_remainder=TERM_REMAINDER + ["macro recursion (invoke_macro_by_id -> print_char -> invoke_macro: a macro that invokes itself recurses without bound - observed, NOT decided and not repaired: the dispatch skeleton that closes the cycle is not under contract)",
+    unverified_remainder=TERM_REMAINDER + ["macro recursion: unit macro_rec proves that invoke_macro_by_id dispatches characters only at nesting depth <= 16, restores the depth and never raises the expansion budget; that the dispatcher (print_char, not under contract as a whole) leaves both fields alone is ASSUMED - no other code writes them",
                                            "the body of parse_hex_macro_sequence around push_repeated (string iteration), base64 font payloads"],
     explanation="Every loop of the screen operations has a decreases measure (termination proved) and iterates over ranges bounded "
                 "by the margins / screen / row count, not by numeric parameters; erase_charcter's count is proved clamped to the width.",
